@@ -81,6 +81,7 @@ type deferRec struct {
 
 // Trans translates one activation (top-level or inlined) of an SSA function.
 type Trans struct {
+	lastRes map[string]Val // result of the latest call of each callee (by function name), for in-body asserts
 	locals map[string][]ssa.Value // see localDefs
 	g            *Gen
 	e            *Emitter
